@@ -11,6 +11,7 @@ NOTE = ("Trusted: the gosym interpreter and its intrinsics (validated on every r
         "nothing outside them is claimed. Goroutine interleavings are not explored.")
 
 claimed = {
+ "C01": ("DESIGN.md §4 C01", "Real alertState.Point/BatchPoint/BufferedBatch/determineLevel/addEvent/triggered/updateExpired/updateFlapping with stub level expressions reading symbolic condition bits, symbolic times/intervals, all 27 level/reset configurations, stateChangesOnly, noRecoveries, all(), history 2..5, flapping, against a reference step function written from the documentation: level, emission, event level/time/duration, forwarded point; the documented worked example with real lambdas."),
  "C11": ("DESIGN.md §4 C11", "influxqlGroup receivers driven directly (nodes built through the real pipeline chaining methods) for count/sum/min/max/first/last/mean/spread (batch and stream), median/mode/percentile/distinct/stddev typing, elapsed/difference/cumulativeSum/movingAverage, with symbolic int64/float64 values, two consecutive batches with the kind chosen per batch, usePointTimes and as(): value, kind, time, name, tags, empty-batch rule; kind history numeric -> string/bool -> numeric. Known findings: median midpoint overflow, float movingAverage drift (InfluxDB reducers)."),
  "C10": ("DESIGN.md §4 C10", "One harness per node (default, delete, shift, sample, derivative, changeDetect, where, stateCount/stateDuration, eval, groupBy point and batch, flatten, combine) calling the node's real receiver methods on symbolic points (field kinds by Choose, symbolic values/tags/times) against the documented transformation, plus the frame property (every input message, its field map and tag map unchanged after the call)."),
  "C18": ("DESIGN.md §4 C18", "Stream recording path end to end: WritePointForRecording -> bytes -> ReplayStreamFromIO (bufio.Scanner, line-protocol parser, replay loop interpreted) with symbolic bytes in one attribute at a time, small symbolic ints, boundary values; identical db/rp/name/tags/fields (values and kinds) and the time rule. Known finding for the line-oriented format with an exact class. Batch recordings (JSON) are outside."),
